@@ -4,6 +4,7 @@ import Bgpfu.Drive.Session
 import Bgpfu.Drive.Daemon
 import Bgpfu.Drive.Writers
 import Bgpfu.Drive.Policy
+import Bgpfu.Drive.Builders
 /-! `modeld`: one request per line on stdin, one answer per line on stdout.
 A line is `<op> <arg>…` separated by single spaces; unknown ops / malformed args answer `bad-op`. -/
 
@@ -16,6 +17,7 @@ def dispatch (ws : List String) : String :=
     | "daemon" :: rest => Daemon.drive rest
     | "ser" :: rest => Writers.drive rest
     | "plan" :: rest => Policy.drive rest
+    | "build" :: rest => Builders.drive rest
     | _ => none
   r.getD "bad-op"
 
